@@ -67,7 +67,7 @@ def _a_inl(el, out):
     elif isinstance(el, inline.LineBreak):
         out.append(T(" ") if el.soft else ("BR", (), ()))
     elif isinstance(el, inline.CodeSpan):
-        out.append(("CODESPAN", (("s", _WS.sub(" ", el.children)),), ()))
+        out.append(("CODESPAN", (("s", _WS.sub(" ", el.children).strip()),), ()))   # (edge spaces: CommonMark strips one of each)
     elif isinstance(el, inline.InlineHTML):
         out.append(("HTML", (("s", _WS.sub(" ", el.children)),), ()))
     elif isinstance(el, inline.AutoLink) or t == "Url":
@@ -189,7 +189,7 @@ def _b_inline(tok):
         elif t == "hardbreak":
             stack[-1].append(("BR", (), ()))
         elif t == "code_inline":
-            stack[-1].append(("CODESPAN", (("s", _WS.sub(" ", c.content)),), ()))
+            stack[-1].append(("CODESPAN", (("s", _WS.sub(" ", c.content).strip()),), ()))
         elif t == "html_inline":
             stack[-1].append(("HTML", (("s", _WS.sub(" ", c.content)),), ()))
         elif t in ("em_open", "strong_open", "s_open", "link_open"):
